@@ -133,34 +133,24 @@ pub enum Component {
 }
 
 fn component_value(c: &Component) -> u64 {
-    let no_ep = {
-        // hash of an empty board, white to move, no rights, no e.p. target = the no-e.p. word
+    // every word is read off the from-scratch key (the property's own observable): the key of an
+    // empty board with exactly that component, xor the key of the empty board itself
+    let key = |f: &dyn Fn(&mut Pos)| {
         let mut p = Pos::empty();
         p.white_to_move = true;
+        f(&mut p);
         zobrist::hash(&to_game(&p)).0
     };
+    let base = key(&|_| {});
     match c {
         Component::Piece { white, kind, sq } => {
-            let mut z = ZobristHash(0);
-            z.toggle_piece_on_square(esq(*sq), Piece::new(player(*white), PieceKind::ALL[*kind as usize]));
-            z.0
+            key(&|p| p.board[*sq as usize] = Some(crate::refchess::Pc::new(*white, crate::adapter::kind_from_engine(PieceKind::ALL[*kind as usize])))) ^ base
         }
-        Component::Castle { white, kingside } => {
-            let mut z = ZobristHash(0);
-            z.toggle_castle_rights(player(*white), if *kingside { CastleRightsSide::Kingside } else { CastleRightsSide::Queenside });
-            z.0
-        }
-        Component::EnPassant { sq } => {
-            let mut z = ZobristHash(0);
-            z.set_en_passant(None, Some(esq(*sq)));
-            z.0 ^ no_ep
-        }
-        Component::NoEnPassant => no_ep,
-        Component::Side => {
-            let mut z = ZobristHash(0);
-            z.toggle_side_to_play();
-            z.0
-        }
+        Component::Castle { white, kingside } => key(&|p| p.castle[(if *white { 0 } else { 2 }) + (if *kingside { 0 } else { 1 })] = true) ^ base,
+        // the e.p. part of a key is one word out of 65 (64 targets, "none"); `base` carries "none"
+        Component::EnPassant { sq } => key(&|p| p.ep = Some(*sq)),
+        Component::NoEnPassant => base,
+        Component::Side => key(&|p| p.white_to_move = false) ^ base,
     }
 }
 
